@@ -8,14 +8,32 @@ OK == [ok |-> TRUE, sig |-> ""]
 Viol(s) == [ok |-> FALSE, sig |-> s]
 WFAll(wf) == \A k \in DOMAIN wf : wf[k].k \in FG!Kinds /\ FG!WellFormedObj(wf[k])
 CanonF(f) == [f EXCEPT !.geom = IF @ = NOGEOM THEN NOGEOM ELSE Canon(@)]
+\* comparing two geometry / feature values whose shapes may differ: TLC refuses to compare an ordinate with a sequence,
+\* so the type is looked at first (a result of another type is a difference, not an evaluation error)
+RECURSIVE SameG(_, _)
+SameG(a, b) == /\ a.t = b.t /\ a.l = b.l
+               /\ IF a.t = "GC" THEN Len(a.body) = Len(b.body) /\ \A i \in DOMAIN a.body : SameG(a.body[i], b.body[i])
+                  ELSE a.body = b.body
 VGeom(r) ==
   LET g == r.case.g IN
   CASE r.pan # "" -> Viol("geojson|encode-or-decode|panic")
     [] r.encerr # "" -> Viol("geojson|Marshal|error|" \o g.t)
     [] r.json # EncGeom(g) -> Viol("geojson|Marshal|json-differs|" \o g.t)
     [] RoundTrips(g) /\ r.backerr # "" -> Viol("geojson|roundtrip|error|" \o g.t)
-    [] RoundTrips(g) /\ r.back # Canon(g) -> Viol("geojson|roundtrip|differs|" \o g.t)
+    [] RoundTrips(g) /\ ~SameG(r.back, Canon(g)) -> Viol("geojson|roundtrip|differs|" \o g.t)
     [] r.backerr = "" /\ ~WFAll(r.wf) -> Viol("geojson|Unmarshal|ill-formed|" \o g.t)
+    \* the same through geojson.Encode and (*Geometry).Decode
+    [] r.encerr2 # "" -> Viol("geojson|Encode|error|" \o g.t)
+    [] r.json2 # EncGeom(g) -> Viol("geojson|Encode|json-differs|" \o g.t)
+    [] RoundTrips(g) /\ r.backerr2 # "" -> Viol("geojson|Encode-Decode|error|" \o g.t)
+    [] RoundTrips(g) /\ ~SameG(r.back2, Canon(g)) -> Viol("geojson|Encode-Decode|differs|" \o g.t)
+    [] r.backerr2 = "" /\ ~WFAll(r.wf2) -> Viol("geojson|Decode|ill-formed|" \o g.t)
+    [] OTHER -> OK
+FeatBack(back, f, api) ==
+  CASE back.id # f.id -> Viol("geojson|feature|id" \o api)
+    [] back.bbox # f.bbox -> Viol("geojson|feature|bbox" \o api)
+    [] back.props # f.props -> Viol("geojson|feature|properties" \o api)
+    [] ~SameG(back.geom, CanonF(f).geom) -> Viol("geojson|feature|geometry" \o api)
     [] OTHER -> OK
 VFeat(r) ==
   LET f == r.case.f IN
@@ -23,11 +41,13 @@ VFeat(r) ==
     [] r.encerr # "" -> Viol("geojson|feature|Marshal-error")
     [] r.json # EncFeature(f) -> Viol("geojson|feature|json-differs")
     [] r.backerr # "" -> Viol("geojson|feature|roundtrip-error")
-    [] r.back.id # f.id -> Viol("geojson|feature|id")
-    [] r.back.bbox # f.bbox -> Viol("geojson|feature|bbox")
-    [] r.back.props # f.props -> Viol("geojson|feature|properties")
-    [] r.back.geom # CanonF(f).geom -> Viol("geojson|feature|geometry")
-    [] OTHER -> OK
+    [] ~FeatBack(r.back, f, "").ok -> FeatBack(r.back, f, "")
+    \* the same through Feature.MarshalJSON / Feature.UnmarshalJSON called directly
+    [] r.encerr2 # "" -> Viol("geojson|feature|MarshalJSON-error")
+    [] r.json2 # EncFeature(f) -> Viol("geojson|feature|MarshalJSON|json-differs")
+    [] r.backerr2 # "" -> Viol("geojson|feature|UnmarshalJSON|roundtrip-error")
+    [] OTHER -> FeatBack(r.back2, f, "|UnmarshalJSON")
+SameFeats(back, fs) == Len(back) = Len(fs) /\ \A i \in DOMAIN fs : "nil" \notin DOMAIN back[i] /\ FeatBack(back[i], fs[i], "").ok
 VFc(r) ==
   LET fc == r.case.fc IN
   CASE r.pan # "" -> Viol("geojson|featurecollection|panic")
@@ -35,28 +55,94 @@ VFc(r) ==
     [] r.json # EncFC(fc) -> Viol("geojson|featurecollection|json-differs")
     [] r.backerr # "" -> Viol("geojson|featurecollection|roundtrip-error")
     [] r.back.bbox # fc.bbox -> Viol("geojson|featurecollection|bbox")
-    [] r.back.features # [i \in DOMAIN fc.features |-> CanonF(fc.features[i])] -> Viol("geojson|featurecollection|features")
+    [] ~SameFeats(r.back.features, fc.features) -> Viol("geojson|featurecollection|features")
+    [] r.encerr2 # "" -> Viol("geojson|featurecollection|MarshalJSON-error")
+    [] r.json2 # EncFC(fc) -> Viol("geojson|featurecollection|MarshalJSON|json-differs")
+    [] r.backerr2 # "" -> Viol("geojson|featurecollection|UnmarshalJSON|roundtrip-error")
+    [] r.back2.bbox # fc.bbox -> Viol("geojson|featurecollection|UnmarshalJSON|bbox")
+    [] ~SameFeats(r.back2.features, fc.features) -> Viol("geojson|featurecollection|UnmarshalJSON|features")
     [] OTHER -> OK
-\* For an arbitrary JSON document the property demands totality and a well-formed result - whether a malformed
-\* document is accepted or rejected, and how odd members (a null ordinate, a numeric id) are read, is left to the
-\* implementation.  WHAT must come back is fixed only for standard documents: those the specification's decoder
-\* accepts and whose value re-encodes to exactly the same document (the image of the encoder on the round-trip domain).
+\* For an arbitrary input the property demands totality and a well-formed result - whether a malformed
+\* document is accepted or rejected, and how odd members (a null ordinate, foreign members, keys in another letter
+\* case, duplicate keys) are read, is left to the implementation.  WHAT must come back is fixed only for standard
+\* documents: those the specification's decoder accepts and whose value re-encodes to exactly the same document (the
+\* image of the encoder on the round-trip domain).  case.doc is the JSON value the input bytes denote when the
+\* generator knows it (a rendering of a tree that differs from the canonical one only in white space, member order and
+\* the spelling of numbers and strings); <<"x", ...>> when it does not (mutated bytes): then only totality is demanded.
+RECURSIVE NoRaw(_)
+NoRaw(j) == CASE j[1] = "x" -> FALSE
+              [] j[1] = "a" -> \A i \in DOMAIN j[2] : NoRaw(j[2][i])
+              [] j[1] = "o" -> \A i \in DOMAIN j[2] : NoRaw(j[2][i][2])
+              [] OTHER -> TRUE
 StdFeat(f) == "nil" \notin DOMAIN f /\ (f.geom = NOGEOM \/ RoundTrips(f.geom))
 Standard(kind, doc, d) ==
-  /\ d.ok
+  /\ d.ok /\ NoRaw(doc)         \* number literals beyond the small integer tokens: formatting is not this property's subject
   /\ CASE kind = "geom" -> d.v # NOGEOM /\ RoundTrips(d.v) /\ EncGeom(d.v) = doc
         [] kind = "feature" -> StdFeat(d.v) /\ EncFeature(d.v) = doc
         [] OTHER -> (\A i \in DOMAIN d.v.features : StdFeat(d.v.features[i])) /\ EncFC(d.v) = doc
+Dec(kind, doc) == CASE kind = "geom" -> DecGeom(doc) [] kind = "feature" -> DecFeature(doc) [] OTHER -> DecFC(doc)
+\* ---- numeric ids.  "Features ... keep their id ... across a round trip", "all Feature ids (string, number, absent)":
+\* for a document that is standard apart from the numbers its features carry as ids, decoding must succeed, everything but
+\* the id is what the standard document without the id gives, and the document the encoder makes of the result carries
+\* an id - as a JSON number or as a string, the library's Feature.ID being a string - that denotes the same number.
+\* Both numbers are recorded in a canonical spelling (sign, significant digits, power of ten); a number with more than
+\* 15 significant digits or outside the range of a float64 is not held to that (JSON numbers are doubles to most readers).
+IsNumTok(j) == j[1] \in {"n", "x"}
+HasNumId(fd) == IsObj(fd) /\ Has(fd, "id") /\ IsNumTok(Get(fd, "id"))
+DropId(fd) == Obj(SelectSeq(fd[2], LAMBDA kv : kv[1] # "id"))
+DropNumId(fd) == IF HasNumId(fd) THEN DropId(fd) ELSE fd
+OnMembers(doc, F(_)) ==          \* F applied to every member document of a FeatureCollection document
+  IF IsObj(doc) /\ Has(doc, "features") /\ Get(doc, "features")[1] = "a"
+  THEN Obj([i \in DOMAIN doc[2] |-> IF doc[2][i][1] = "features"
+                                      THEN <<"features", Arr([k \in DOMAIN doc[2][i][2][2] |-> F(doc[2][i][2][2][k])])>>
+                                      ELSE doc[2][i]])
+  ELSE doc
+DropNumIds(kind, doc) == CASE kind = "feature" -> DropNumId(doc) [] kind = "fc" -> OnMembers(doc, DropNumId) [] OTHER -> doc
+DropAnyId(fd) == IF IsObj(fd) /\ Has(fd, "id") THEN DropId(fd) ELSE fd
+DropIds(kind, doc) == CASE kind = "feature" -> DropAnyId(doc) [] kind = "fc" -> OnMembers(doc, DropAnyId) [] OTHER -> doc
+Members(kind, doc) == IF kind = "feature" THEN <<doc>> ELSE Get(doc, "features")[2]      \* of a document that is Standard once its numeric ids are dropped
+SameF(a, b) == "nil" \notin DOMAIN a /\ a.id = b.id /\ a.bbox = b.bbox /\ a.props = b.props /\ SameG(a.geom, b.geom)
+SameV(kind, a, b) == IF kind = "feature" THEN SameF(a, b)
+                     ELSE a.bbox = b.bbox /\ Len(a.features) = Len(b.features) /\ \A k \in DOMAIN b.features : SameF(a.features[k], b.features[k])
+Blank(f) == IF "id" \in DOMAIN f THEN [f EXCEPT !.id = ""] ELSE f
+BlankNumIds(kind, doc, v) ==       \* the decoded value with the ids of the members that carry a number blanked
+  IF kind = "feature" THEN Blank(v)
+  ELSE IF Len(v.features) # Len(Members(kind, doc)) THEN v
+  ELSE [v EXCEPT !.features = [k \in DOMAIN @ |-> IF HasNumId(Members(kind, doc)[k]) THEN Blank(@[k]) ELSE @[k]]]
+InDouble(a) == a.k = "n" /\ a.nd <= 15 /\ a.mag >= -300 /\ a.mag <= 300
+IdKept(a, b) == b.k \in {"s", "n"} /\ b.num = a.num
+IdsInDouble(kind, doc, idin) ==
+  /\ Len(idin) = Len(Members(kind, doc))
+  /\ \A k \in DOMAIN idin : HasNumId(Members(kind, doc)[k]) => InDouble(idin[k])
+IdsKept(kind, doc, idin, reid) ==
+  /\ Len(reid) = Len(idin)
+  /\ \A k \in DOMAIN idin : HasNumId(Members(kind, doc)[k]) => IdKept(idin[k], reid[k])
+\* one decoding entry point's record against the specification
+VRun(r, x, kind, d, std, doc2, d2, std2) ==
+  LET tag == "geojson|decode|" \o kind \o "|"  api == "|" \o x.api IN
+  CASE x.pan # "" -> Viol(tag \o "panic" \o api)
+    [] x.ok /\ ~WFAll(x.wf) -> Viol(tag \o "ill-formed" \o api)
+    [] std /\ ~x.ok -> Viol(tag \o "rejects-standard-document" \o api)
+    [] std /\ kind = "geom" /\ ~SameG(x.g, d.v) -> Viol(tag \o "value-differs" \o api)
+    [] std /\ kind # "geom" /\ ~SameV(kind, x.f, d.v) -> Viol(tag \o "value-differs" \o api)
+    [] std /\ x.re # "" -> Viol(tag \o "re-encode-error" \o api)
+    [] std /\ x.rejson # r.case.doc -> Viol(tag \o "re-encoded-differs" \o api)
+    [] std2 /\ ~x.ok -> Viol(tag \o "rejects-numeric-id" \o api)
+    [] std2 /\ ~SameV(kind, BlankNumIds(kind, r.case.doc, x.f), d2.v) -> Viol(tag \o "numeric-id|value-differs" \o api)
+    [] std2 /\ x.re # "" -> Viol(tag \o "numeric-id|re-encode-error" \o api)
+    [] std2 /\ DropIds(kind, x.rejson) # DropIds(kind, r.case.doc) -> Viol(tag \o "numeric-id|re-encoded-differs" \o api)
+    [] std2 /\ ~IdsKept(kind, r.case.doc, r.idin, x.reid) -> Viol(tag \o "numeric-id|id-not-kept" \o api)
+    [] OTHER -> OK
 VDec(r) ==
   LET kind == r.case.kind
-      d == CASE kind = "geom" -> DecGeom(r.case.doc) [] kind = "feature" -> DecFeature(r.case.doc) [] OTHER -> DecFC(r.case.doc)
-      std == Standard(kind, r.case.doc, d) IN
-  CASE r.pan # "" -> Viol("geojson|decode|" \o kind \o "|panic")
-    [] r.ok /\ ~WFAll(r.wf) -> Viol("geojson|decode|" \o kind \o "|ill-formed")
-    [] std /\ ~r.ok -> Viol("geojson|decode|" \o kind \o "|rejects-standard-document")
-    [] std /\ kind = "geom" /\ r.g # d.v -> Viol("geojson|decode|geom|value-differs")
-    [] std /\ kind # "geom" /\ r.f # d.v -> Viol("geojson|decode|" \o kind \o "|value-differs")
-    [] OTHER -> OK
+      doc == r.case.doc
+      d == Dec(kind, doc)
+      std == Standard(kind, doc, d)
+      doc2 == DropNumIds(kind, doc)
+      d2 == Dec(kind, doc2)
+      std2 == doc2 # doc /\ Standard(kind, doc2, d2) /\ IdsInDouble(kind, doc, r.idin)
+      vs == [k \in DOMAIN r.runs |-> VRun(r, r.runs[k], kind, d, std, doc2, d2, std2)] IN
+  IF \A k \in DOMAIN vs : vs[k].ok THEN OK ELSE vs[CHOOSE k \in DOMAIN vs : ~vs[k].ok /\ \A j \in DOMAIN vs : j < k => vs[j].ok]
 Verdict(r) ==
   IF r.ev # "ok" THEN Viol("geojson|" \o r.ev)
   ELSE CASE r.case.fam = "geom" -> VGeom(r) [] r.case.fam = "feat" -> VFeat(r) [] r.case.fam = "fc" -> VFc(r) [] OTHER -> VDec(r)
